@@ -2,4 +2,4 @@ SPECIFICATION Spec
 CONSTANTS
   Alpha <- AllBytes
   N = 2
-INVARIANTS LawsHold Emit
+INVARIANTS Judge
